@@ -164,4 +164,11 @@ CLAIMS['C17'] = {
   'text': "Decides the clauses that are shapes of the code: the caller's index arrays are shifted to 1-based and back with the right extents on every path to a return, perm is returned 0-based, the duals are handed back for job 5, the MC64 status is the return value on every exit (and the ILU driver tests it, C15), and MC64 cannot write the caller's pattern or values. That the permutation is a maximum-product matching with unit scaling is a statement about the algorithm's values and is not decided (a seeded change inside mc64wd_ is not detected).",
   'note': 'No-alias contract; may-write set of the f2c-derived MC64 code is computed from its parsed source.',
 }
+CLAIMS['C20'] = {
+  'level': 'other',
+  'technique': 'static analysis: flag-partitioned event oracle per request code (R3), sound may-write set (R10), allocation/release ledger between requests, ownership dataflow (R4), static-storage census (R1), sibling agreement (R9)',
+  'design_ref': 'DESIGN.md 5 C20',
+  'text': "Decides for the four bridges: a factor request copies (value - 1, full extent) instead of modifying the caller's arrays, runs the same ordered phases as the simple driver on the matrix built from those copies and parks exactly the factored objects in the handle; a solve request wraps b with its leading dimension and solves with the objects read back from the handle; a free request releases everything the factor request allocated (incl. every pointer field of L and U through the destroyers) and the handle last; no request can write values / rowind / colptr; no temporary leaks; the bridge has no file-scope state (handles cannot interfere). Numerical equality with the C driver is not decided.",
+  'note': 'The tested build does not compile FORTRAN/; the units are parsed with the same flags.',
+}
 NOT_APPLICABLE = {}
